@@ -74,6 +74,10 @@ def case_product(c):
         dims.append([(p, v) for v in vals])
     combos = list(itertools.product(*dims)) if dims else [()]
     tcs = list(getattr(c, 'type_cases', ()) or [('', {})])
+    sps = list(getattr(c, 'split_on', ()) or [])
+    if sps:
+        tcs = [((tl + ', ' if tl else '') + 'when ' + e, dict(tm, __assume__=e)) for (tl, tm) in tcs for e in sps] + \
+              [((tl + ', ' if tl else '') + 'split exhaustive', dict(tm, __exhaustive__=sps)) for (tl, tm) in tcs]
     for combo, (tlabel, tmap) in itertools.product(combos, tcs):
         assign = dict(combo)
         tac = {'split_len': dict(c.split_len), 'opaque': list(getattr(c, 'opaque', ()) or ())}
@@ -100,6 +104,12 @@ def value_probes(I, st, name, v, out, depth=0):
     """flatten a symbolic input value into (name, z3 expr) leaves"""
     if isinstance(v, (SInt, SBool)):
         out.append((name, v.e))
+    elif isinstance(v, SIte):
+        out.append((name + '?a', v.c))
+        value_probes(I, st, name + '?A', v.a, out, depth + 1)
+        value_probes(I, st, name + '?B', v.b, out, depth + 1)
+    elif isinstance(v, SNone):
+        pass
     elif isinstance(v, SStr):
         out.append((name, v.z()))
     elif isinstance(v, STuple):
@@ -153,6 +163,9 @@ def generate(I, qual, rep, opts, only_cases=None):
                 return
             a = argnames[i]
             t = ptypes[a]
+            if a.startswith('__'):
+                yield from mk(i + 1, env, st)
+                return
             if isinstance(t, tuple) and t[0] == 'residual':
                 e = I.fresh(a, z3.StringSort())
                 st.assume(z3.Length(e) > t[1])
@@ -167,6 +180,18 @@ def generate(I, qual, rep, opts, only_cases=None):
         for st, env in mk(0, {}, st0):
             for r in c.requires:
                 C.assume_expr(I, r, env, st, scope)
+            if '__exhaustive__' in overrides:
+                # the case split is complete: some case condition holds for every input
+                neg = st.fork()
+                for e in overrides['__exhaustive__']:
+                    C.assume_expr(I, 'not (%s)' % e, env, neg, scope)
+                o = Obligation('%s#split-exhaustive' % qual, 'split', neg.pc, z3.BoolVal(False), qual, '', note=' | '.join(overrides['__exhaustive__']))
+                o.tag = {'case': label, 'probes': []}
+                I.obligations.append(o)
+                covers.append((label, 'return', list(st.pc)))
+                continue
+            if '__assume__' in overrides:
+                C.assume_expr(I, overrides['__assume__'], env, st, scope)
             if not I.feasible(st.pc):
                 covers.append((label, 'requires', list(st.pc)))
                 continue
@@ -188,7 +213,7 @@ def generate(I, qual, rep, opts, only_cases=None):
             st.frames = [frame]
             if is_gen:
                 st.ghost['__yielded__'] = []
-            reached_normal = False
+            reached_normal = 0
             n_out = 0
             for st1, sig in I.ex(fnode.body, st):
                 n_out += 1
@@ -197,8 +222,8 @@ def generate(I, qual, rep, opts, only_cases=None):
                 tag = {'case': label, 'probes': probes}
                 if sig is NORMAL or sig[0] == 'return':
                     res = NONE if sig is NORMAL else sig[1]
-                    if not reached_normal:
-                        reached_normal = True
+                    if reached_normal < 3:
+                        reached_normal += 1
                         covers.append((label, 'return', list(st1.pc)))
                     b = dict(env)
                     b['result'] = res
